@@ -207,9 +207,14 @@ type lifeCase struct {
 	sockDial string
 	sockAddr string // varlink address for Listen
 	serveTmo bool
+	// inject: expiries are injected on the REAL listener (SetDeadline in the past from the harness) instead of waiting
+	// for the real clock; the service is started with a one-hour timeout, so no other expiry ever happens
+	inject bool
 }
 
 const sockTimeout = 400 * time.Millisecond
+
+var lifeTCPCounter int
 
 type lifeIface struct{ name string }
 
@@ -418,7 +423,7 @@ func (h *lifeCase) event(tok string) string {
 		var tmo time.Duration
 		if tok == "S1" {
 			tmo = time.Hour
-			if h.sock {
+			if h.sock && !h.inject {
 				tmo = sockTimeout
 			}
 		}
@@ -538,7 +543,15 @@ func (h *lifeCase) event(tok string) string {
 			if !(running && h.serveTmo && retClass(h.serve) == 1) {
 				return "skip"
 			}
-			time.Sleep(sockTimeout + 80*time.Millisecond)
+			if h.inject {
+				l, _ := h.svc.GetListener()
+				d, ok := l.(interface{ SetDeadline(time.Time) error })
+				if !ok || d.SetDeadline(time.Unix(1, 0)) != nil {
+					return "noinject"
+				}
+			} else {
+				time.Sleep(sockTimeout + 80*time.Millisecond)
+			}
 			h.waitQuiet()
 			return "fired"
 		}
@@ -578,11 +591,11 @@ func (h *lifeCase) event(tok string) string {
 }
 
 func runLifeHistory(id string, tag string, evs []string) (string, error) {
-	return runLifeHistoryOn(id, tag, "", evs)
+	return runLifeHistoryOn(id, tag, "", false, evs)
 }
 
 // sockKind: "" = controlled listener; "fs", "abstract", "tcp" = Listen on a real socket of that kind
-func runLifeHistoryOn(id string, tag string, sockKind string, evs []string) (string, error) {
+func runLifeHistoryOn(id string, tag string, sockKind string, inject bool, evs []string) (string, error) {
 	svc, err := varlink.NewService("v", "p", "1", "u")
 	if err != nil {
 		return "", err
@@ -590,7 +603,7 @@ func runLifeHistoryOn(id string, tag string, sockKind string, evs []string) (str
 	if err := svc.RegisterInterface(&lifeIface{name: "org.example.life"}); err != nil {
 		return "", err
 	}
-	h := &lifeCase{svc: svc, id: id, quietWait: 3 * time.Second}
+	h := &lifeCase{svc: svc, id: id, quietWait: 3 * time.Second, inject: inject}
 	switch sockKind {
 	case "fs":
 		p := fmt.Sprintf("%s/verif-life-%d-%s.sock", os.TempDir(), os.Getpid(), id)
@@ -600,12 +613,22 @@ func runLifeHistoryOn(id string, tag string, sockKind string, evs []string) (str
 		p := fmt.Sprintf("@verif-lifesock-%d-%s", os.Getpid(), id)
 		h.sock, h.sockNet, h.sockDial, h.sockAddr = true, "unix", p, "unix:"+p
 	case "tcp":
-		pl, err := net.Listen("tcp", "127.0.0.1:0")
-		if err != nil {
-			return "", err
+		// a port below the ephemeral range (outgoing connections of parallel cases must not take it between two
+		// Listen calls of this history), different per process, probed once
+		var a string
+		for try := 0; ; try++ {
+			lifeTCPCounter++
+			port := 10000 + (os.Getpid()*37+lifeTCPCounter*3+len(id)*7919+int(id[len(id)-1])*101)%20000
+			pl, err := net.Listen("tcp", fmt.Sprintf("127.0.0.1:%d", port))
+			if err == nil {
+				a = pl.Addr().String()
+				pl.Close()
+				break
+			}
+			if try > 400 {
+				return "", err
+			}
 		}
-		a := pl.Addr().String()
-		pl.Close()
 		h.sock, h.sockNet, h.sockDial, h.sockAddr = true, "tcp", a, "tcp:"+a
 	}
 	l := &Line{}
@@ -729,8 +752,9 @@ func lifeEpilogueSock(body []string) []string {
 }
 
 type sockHistory struct {
-	kind string
-	body []string
+	kind   string
+	inject bool
+	body   []string
 }
 
 func lifeSockHistories(prop string, tier string) []sockHistory {
@@ -761,7 +785,20 @@ func lifeSockHistories(prop string, tier string) []sockHistory {
 			}
 		}
 		for _, b := range hs {
-			out = append(out, sockHistory{kind, b})
+			out = append(out, sockHistory{kind, false, b})
+		}
+		if prop == "C15" {
+			// Listen's own timeout branch, deterministically: all histories with expiries injected on the real listener
+			var inj [][]string
+			depth := 4
+			if thorough {
+				depth = 5
+			}
+			enumLife([]string{"S1"}, []string{"C", "Q0", "X0", "X1", "A0", "T", "H"}, depth, &inj)
+			enumLife([]string{"S0"}, []string{"C", "X0", "T"}, 2, &inj)
+			for _, b := range inj {
+				out = append(out, sockHistory{kind, true, b})
+			}
 		}
 	}
 	return out
@@ -777,7 +814,11 @@ func lifeSockCommand(prop string) func(e *env) error {
 			for _, s := range append(append([]string(nil), hs[i].body...), lifeEpilogueSock(hs[i].body)...) {
 				evs = append(evs, expandSym(s)...)
 			}
-			return runLifeHistoryOn(fmt.Sprintf("s%d", i), prop+"sock"+hs[i].kind, hs[i].kind, evs)
+			tag := prop + "sock" + hs[i].kind
+			if hs[i].inject {
+				tag = prop + "sockinj" + hs[i].kind
+			}
+			return runLifeHistoryOn(fmt.Sprintf("s%d", i), tag, hs[i].kind, hs[i].inject, evs)
 		}
 		if e.only >= 0 || os.Getenv("VERIF_LIFE_CHILD") != "" {
 			defer runtime.GOMAXPROCS(runtime.GOMAXPROCS(1))
